@@ -469,6 +469,37 @@ def run(chk, w):
     # ---- CAP: buffers written with an extent taken from the length byte
     cap_rule(chk, P, rxf, "C12-CAP", 1)
 
+    # ---- ALLOC: the heap copy of a message has the size its own length byte announces
+    chk.rule("C12-ALLOC", "the splitter allocates every message with (length byte + 1) bytes: everything downstream reads up to message[message[0]], so a block cut to the bytes left in the "
+                          "packet is over-read")
+    from .. import capacity as _cap
+    from . import c02 as _c02b
+    _D2, _disp2, _asm2, _split2, _rd2 = _c02b.receiver_roles(w)
+    nal = 0
+    for mc in _split2.calls("malloc"):
+        nal += 1
+        sz = _cap.sym(_split2, mc.args[0])
+        ok = sz is not None and sz[0] == 1 and len(sz[1]) == 1 and list(sz[1].values()) == [1] and list(sz[1])[0][0] == "ld"
+        if not ok and sz is None:
+            # the length byte read through a variable index (buffer[i]): accept `load + 1` whatever the index expression
+            v = _split2.resolve(rules.strip_casts(_split2, rules.resolve_local(_split2, mc.args[0]))) if mc.args[0].get("k") == "inst" else None
+            for _ in range(4):
+                if v is not None and v.op == "mul" and rules.const_of(_split2, v["b"]) == 1:
+                    v = _split2.resolve(rules.strip_casts(_split2, v["a"]))
+                elif v is not None and v.op == "mul" and rules.const_of(_split2, v["a"]) == 1:
+                    v = _split2.resolve(rules.strip_casts(_split2, v["b"]))
+                else:
+                    break
+            if v is not None and v.op == "add" and rules.const_of(_split2, v["b"]) == 1:
+                a0 = _split2.resolve(rules.strip_casts(_split2, v["a"]))
+                ok = a0 is not None and a0.op == "load" and a0.get("ty") == "i8"
+        if ok:
+            chk.ok("C12-ALLOC", 1, {"allocation": mc.loc(), "size": "length byte + 1"})
+        else:
+            chk.violation("C12-ALLOC", _split2.name, "message-size", mc.loc(), "the message buffer is not allocated with (length byte + 1) bytes: a CRC-valid packet whose last length byte overstates what is "
+                          "left yields a block shorter than message[0] + 1, which the log helper and the dispatcher then read past")
+    chk.floor("split_message_allocations", nal, 1)
+
     # ---- DRAIN: loops that run until a queue is empty
     drain_rule(chk, P, rxf)
 
